@@ -87,8 +87,13 @@ fn main() {
     let rep = if let Some(only) = std::env::var("YV_ONLY").ok().and_then(|s| s.parse::<u64>().ok()) {
         c19::run_range(&tier, seed, only, only + 1)
     } else {
-        let mut r = report::isolated("C19", &tier, seed, c19::cases(&tier), 100, workers);
-        c19::run_probes(&mut r);
+        // the abort / hang probes (own child processes) run next to the random cases
+        let (mut r, p) = std::thread::scope(|sc| {
+            let h = sc.spawn(|| { let mut p = report::Report::default(); c19::run_probes(&mut p); c19::scripted_findings(&mut p); p });
+            let r = report::isolated("C19", &tier, seed, c19::cases(&tier), 100, workers);
+            (r, h.join().unwrap_or_default())
+        });
+        r.merge(p);
         r.notes.extend(c19::notes());
         r
     };
